@@ -28,3 +28,5 @@ def run(prog, rep):
     r_pair.run_match_tables(prog, rep)
     from ..rules import r_safe as _rs
     _rs.run_stale_size(prog, rep)
+    from ..rules import r_key as _rkx
+    _rkx.run_handles_only(prog, rep)
